@@ -1393,14 +1393,23 @@ C19_GET_SCREEN = dict(
            (_GLOB % "training.screen.h5", "glob_in_plate output_dir' KTraining", "list spath"),
            _LEN0, ("__l[0]", "!shead {l}", "spath", {"l": "list spath"})],
 )
+# validate_job_dir_and_return_meta since the repair of the torn-marker finding (an unreadable marker, or one that is not a dict with
+# the key n_unobserved_plates, counts as no marker): the job directory is the list of marker files its glob matches (marker_dir),
+# a file is the JSON document it holds or None (mfile), json.load answers that option - None = it raises ValueError, which
+# is what the `except ValueError` of the source catches (try_except_classes) -, isinstance / `in` look at the document (jval)
 C19_VALIDATE = dict(
     _C19, func="validate_job_dir_and_return_meta", name="src_validate_job_dir_and_return_meta", pyparams=["output_dir"],
-    params=[("output_dir", "plate_path")], returns="opt Z",
-    # screen_metadata: first the list of matches, then the first match; a metadata file / object is its n_unobserved_plates
-    vars={"screen_metadata": "list Z", "f": "Z", "screen_metadata_obj": "Z"}, retype={"screen_metadata": ["Z"]},
-    contexts=[("open(screen_metadata, 'r')", "screen_metadata'", "Z")],
-    prims=[(_GLOB % "screen_metadata.json", "glob_meta output_dir'", "list Z"),
-           _LEN0, ("__l[0]", "!shead {l}", "Z", {"l": "list Z"}), ("json.load(__f)", "{f}", "Z", {"f": "Z"})],
+    params=[("output_dir", "marker_dir")], returns="opt jval",
+    # screen_metadata: first the list of matches, then the first match
+    vars={"screen_metadata": "list mfile", "f": "mfile", "screen_metadata_obj": "opt jval"}, retype={"screen_metadata": ["mfile"]},
+    contexts=[("open(screen_metadata, 'r')", "screen_metadata'", "mfile")],
+    prims=[(_GLOB % "screen_metadata.json", "glob_meta_files output_dir'", "list mfile"),
+           _LEN0, ("__l[0]", "!shead {l}", "mfile", {"l": "list mfile"}),
+           ("isinstance(__o, dict)", "is_dict {o}", "bool", {"o": "opt jval"}),
+           # a key test only on a dict; anything else raises in the model (the `or` of the source must guard it)
+           ("'n_unobserved_plates' not in __o", "!lacks_nup {o}", "bool", {"o": "opt jval"})],
+    try_prims=[("json.load(__f)", "SOk (json_load {f})", {"f": "mfile"}, "Some {x}", "jval")],
+    try_except_classes=["ValueError"], short_circuit=True,
 )
 C19_GET_TEST_SCREEN = dict(
     _C19, func="get_test_screen_from_job_output", name="src_get_test_screen_from_job_output", pyparams=["output_dir"],
@@ -1432,17 +1441,18 @@ C19_HELPERS = [C19_GET_SCREEN, C19_VALIDATE, C19_GET_TEST_SCREEN, C19_GET_THETAS
 _NAMES_DIR = ". Consider deleting this directory to continue simulation: {plate_dir}"      # the directory the message names
 C19_EXAMINE = dict(
     _C19, func="examine_output_dir_to_determine_current_iteration", name="src_examine",
-    pyparams=["output_dir", "batch_size"], params=[("output_dir", "fs"), ("batch_size", "Z")],
-    returns="(Z * Z * opt Z * opt spath)",
+    # the output directory is the tree TOGETHER with the set of job directories whose marker file is unreadable (tfs)
+    pyparams=["output_dir", "batch_size"], params=[("output_dir", "tfs"), ("batch_size", "Z")],
+    returns="(Z * Z * opt jval * opt spath)",
     vars={"contents_of_output_directory": "list iter_path", "iter_dirs": "list iter_path", "iter_dir": "iter_path",
           "contents_of_iter_directory": "list plate_path", "plate_dirs": "list plate_path", "plate_dir": "plate_path",
-          "last_successful_run_meta": "opt Z", "current_iter_index": "opt Z", "current_plate_idx": "opt Z",
+          "last_successful_run_meta": "opt jval", "current_iter_index": "opt Z", "current_plate_idx": "opt Z",
           "idx": "Z", "plate_idx": "Z", "next_iter_index": "Z", "next_plate_index": "Z"},
     # plate_dir is read after the loops that bind it (only on paths where the inner loop ran: the linking proof shows the
     # default is never read)
     predefine={"plate_dir": "((0, 0), empty_pdir)"},
     prims=[
-        ("glob.glob(output_dir + '/iter_*')", "glob_iters output_dir'", "list iter_path"),
+        ("glob.glob(output_dir + '/iter_*')", "glob_iters (fst output_dir')", "list iter_path"),
         ("glob.glob(__d + '/plate_*')", "glob_plates {d}", "list plate_path", {"d": "iter_path"}),
         ("os.path.isdir(__x)", "true", "bool", {"x": "iter_path"}),       # every entry of the model tree is a directory
         ("os.path.isdir(__x)", "true", "bool", {"x": "plate_path"}),
@@ -1450,8 +1460,10 @@ C19_EXAMINE = dict(
         ("sorted(__l, key=dir_sort_key)", "sort_by plate_index {l}", "list plate_path", {"l": "list plate_path"}),
         ("dir_sort_key(__x)", "iter_index {x}", "Z", {"x": "iter_path"}),
         ("dir_sort_key(__x)", "plate_index {x}", "Z", {"x": "plate_path"}),
-        # the callees are the translated functions (C19_VALIDATE, C19_GET_SCREEN)
-        ("validate_job_dir_and_return_meta(__p)", "!src_validate_job_dir_and_return_meta {p}", "opt Z", {"p": "plate_path"}),
+        # the callees are the translated functions (C19_VALIDATE, C19_GET_SCREEN); validate gets the marker files its glob finds
+        # under that directory in this world (marker_dir_of: a torn one, the whole one of f_meta, or none)
+        ("validate_job_dir_and_return_meta(__p)", "!src_validate_job_dir_and_return_meta (marker_dir_of (snd output_dir') {p})", "opt jval",
+         {"p": "plate_path"}),
         ("get_screen_from_job_output(__p)", "!src_get_screen_from_job_output {p}", "opt spath", {"p": "plate_path"}),
     ],
     raises=[("Found job dir with invalid structure" + _NAMES_DIR, "SNamed 1 (fst {plate_dir})"),
@@ -1460,24 +1472,27 @@ C19_EXAMINE = dict(
 ALL += C19_HELPERS + [C19_EXAMINE]
 
 # run_next_retrospective_step / run_next_prospective_step.  `acts` (no variable of the source) is the list of file-system
-# actions done so far; every read of the output directory reads `tree_after output_dir' acts'`, the tree as it is then.
+# actions done so far; every read of the output directory reads `tree_after (fst output_dir') acts'`, the tree as it is then
+# (examine, the one reader of marker files: `tfs_after output_dir' acts'`, tree and torn markers).
 # A path built with os.path.join is the step (i, j) / the iteration index i it names.
-_NOW = "(tree_after output_dir' acts')"
+_NOW = "(tree_after (fst output_dir') acts')"
+_NOW_T = "(tfs_after output_dir' acts')"        # what examine reads: the tree and the torn markers as they are then
 _STEP = dict(
     _C19, imports="Model.Orchestrate Generated.SrcOrchCmd", pyparams=["output_dir", "input_screen", "extra_args", "batch_size"],
-    params=[("output_dir", "fs"), ("input_screen", "spath"), ("extra_args", "eargs"), ("batch_size", "Z")],      # extra_args is only handed on
+    params=[("output_dir", "tfs"), ("input_screen", "spath"), ("extra_args", "eargs"), ("batch_size", "Z")],      # extra_args is only handed on
     returns="bool", return_state=["acts'"], predefine={"acts": "[]"}, tail_dup=True,
     vars={"acts": "list action", "experiment_name": "ename", "_": "ename",
-          "current_iter_index": "Z", "current_plate_idx": "Z", "last_successful_run_meta": "opt Z", "current_screen": "opt spath",
+          "current_iter_index": "Z", "current_plate_idx": "Z", "last_successful_run_meta": "opt jval", "current_screen": "opt spath",
           "plates_remaining": "Z", "job_output_dir": "step", "already_selected_plates": "opt list Z",
           "first_output_dir": "step", "test_screen": "opt spath", "first_plate_of_iter_output_dir": "step",
           "theta_and_dist_chunks": "step"},
     prims=[
         ("os.path.splitext(os.path.basename(input_screen))", "(tt, tt)", "(ename * ename)"),
         # the callee is the translated examine (C19_EXAMINE), run on the tree as it is now
-        ("examine_output_dir_to_determine_current_iteration(output_dir, batch_size)", "!src_examine %s batch_size'" % _NOW,
-         "(Z * Z * opt Z * opt spath)"),
-        ("__m['n_unobserved_plates']", "{m}", "Z", {"m": "Z"}),           # the metadata object IS that entry
+        ("examine_output_dir_to_determine_current_iteration(output_dir, batch_size)", "!src_examine %s batch_size'" % _NOW_T,
+         "(Z * Z * opt jval * opt spath)"),
+        # the entry of the loaded document: KeyError / TypeError when it has none (jget_nup; proved unreachable)
+        ("__m['n_unobserved_plates']", "!jget_nup {m}", "Z", {"m": "jval"}),
         ("os.path.join(output_dir, f'iter_{__i}', f'plate_{__j}')", "({i}, {j})", "step", {"i": "Z", "j": "Z"}),
         ("os.path.join(output_dir, f'iter_0', f'plate_0')", "(0, 0)", "step"),
         ("os.path.join(output_dir, f'iter_{__i}', 'plate_0')", "({i}, 0)", "step", {"i": "Z"}),
@@ -3296,9 +3311,10 @@ C19_MAIN = dict(
         ("get_args()", "(argv, extra)", "(margs * eargs)"),                      # get_args() is not translated: it yields the parsed arguments
         ("'retrospective'", "NRetrospective", "modename"),                       # the two strings argparse's `choices` admits
         ("'prospective'", "NProspective", "modename"),
-        # a function name is the translated function (C19_RETRO / C19_PROSP)
-        ("run_next_retrospective_step", "src_run_next_retrospective_step", "stepfn"),
-        ("run_next_prospective_step", "src_run_next_prospective_step", "stepfn"),
+        # a function name is the translated function (C19_RETRO / C19_PROSP); the world of main()'s link has no torn marker
+        # (a published file appears atomically there): the function runs on the tree with the empty torn set
+        ("run_next_retrospective_step", "(fun f => src_run_next_retrospective_step (f, []))", "stepfn"),
+        ("run_next_prospective_step", "(fun f => src_run_next_prospective_step (f, []))", "stepfn"),
         ("os.path.abspath(args.outdir)", "OutDir", "opath"),                     # THE output directory of the world
         ("os.path.abspath(args.screen)", "SInput", "spath"),                     # the screen the operator gave this invocation
     ],
